@@ -177,3 +177,94 @@ fn c15_valid_rejects_mismatched_values() {
     kani::cover!(!matching && k % 3 == 1 && which % 15 == 12, "f32 kind with f64 value");
     std::mem::forget(a);
 }
+
+// ---------------------------------------------------------------------------
+// "... and parses back to an equal message": Message::new(conf) -> as_bytes -> dlt_message
+// in one query per configuration shape (all data symbolic); the serialisation is also
+// compared with the reference encoding of the configuration.
+// ---------------------------------------------------------------------------
+fn new_parses_back(s: &Shape) {
+    use dlt_core::parse::{dlt_message, ParsedMessage};
+    let bt = build(s, 0, None, None);
+    let h = &bt.h;
+    let big = s.htyp & HTYP_MSBF != 0;
+    let payload = match s.payload {
+        P::Verbose(shapes) => {
+            let mut v = Vec::with_capacity(shapes.len());
+            let mut i = 0;
+            while i < shapes.len() {
+                v.push(make_arg(&shapes[i], &bt.args[i]));
+                i += 1;
+            }
+            PayloadContent::Verbose(v)
+        }
+        P::NonVerbose(extra) => PayloadContent::NonVerbose(bt.nv_id, vec_of(&bt.nv_data, extra)),
+        P::Control(extra) => PayloadContent::ControlMsg(ControlType::from_value(bt.nv_id as u8), vec_of(&bt.nv_data, extra)),
+        P::NetTrace(lens) => {
+            let mut v = Vec::with_capacity(lens.len());
+            let mut i = 0;
+            while i < lens.len() {
+                v.push(vec_of(&bt.slices[i], lens[i]));
+                i += 1;
+            }
+            PayloadContent::NetworkTrace(v)
+        }
+    };
+    let conf = MessageConfig {
+        version: s.htyp >> 5,
+        counter: h.mcnt,
+        endianness: if big { Endianness::Big } else { Endianness::Little },
+        ecu_id: if s.htyp & HTYP_WEID != 0 { Some(id_string(&h.ecu, h.ecu_len)) } else { None },
+        session_id: if s.htyp & HTYP_WSID != 0 { Some(h.session) } else { None },
+        timestamp: if s.htyp & HTYP_WTMS != 0 { Some(h.timestamp) } else { None },
+        payload,
+        extended_header_info: if s.htyp & HTYP_UEH != 0 {
+            Some(ExtendedHeaderConfig { message_type: crate::c14::ref_message_type(s.msin), app_id: id_string(&h.apid, h.apid_len), context_id: id_string(&h.ctid, h.ctid_len) })
+        } else {
+            None
+        },
+    };
+    let m = Message::new(conf, None);
+    let bytes = m.as_bytes();
+    assert!(bytes.len() == m.byte_len() as usize, "byte_len differs from the serialised length");
+    assert!(bytes.len() == bt.msg_end, "serialised length differs from the reference encoding of the configuration");
+    let mut b = Buf::<MAXMSG>::new();
+    b.put_bytes(&bytes, bt.msg_end);
+    let mut i = 0;
+    while i < bt.msg_end {
+        assert!(b.b[i] == bt.buf.b[i], "serialisation of the built message differs from the reference encoding of the configuration");
+        i += 1;
+    }
+    let r = dlt_message(b.slice(), None, false);
+    match &r {
+        Ok((rest, ParsedMessage::Item(mm))) => {
+            assert!(rest.is_empty(), "bytes left over");
+            check_headers(mm, false, s.htyp, s.msin, &bt.h, bt.payload_len as u16);
+            check_payload(mm, s, &bt);
+            kani::cover!(true, "built message parses back");
+        }
+        _ => assert!(false, "built message does not parse back"),
+    }
+    std::mem::forget(r);
+    std::mem::forget(bytes);
+    std::mem::forget(m);
+}
+
+macro_rules! c15_back {
+    ($name:ident, $shape:expr) => {
+        #[kani::proof]
+        #[kani::unwind(100)]
+        #[kani::stub(std::fmt::format, crate::models::fmt_format_stub)]
+        #[kani::stub(core::str::from_utf8, crate::models::from_utf8_stub)]
+        fn $name() {
+            let s: Shape = $shape;
+            new_parses_back(&s);
+        }
+    };
+}
+c15_back!(c15_back_nonverbose_noext, Shape { storage: false, htyp: H_MIN, msin: 0, ids: IDS_FULL, payload: P::NonVerbose(3) });
+c15_back!(c15_back_control, Shape { storage: false, htyp: H_EXT_LE, msin: M_CTRL_RESP, ids: IDS_FULL, payload: P::Control(2) });
+c15_back!(c15_back_nettrace_be, Shape { storage: false, htyp: H_EXT_BE, msin: M_NW_CAN_V, ids: IDS_FULL, payload: P::NetTrace(&[3]) });
+c15_back!(c15_back_nettrace_empty, Shape { storage: false, htyp: H_EXT_LE, msin: M_NW_CAN_V, ids: IDS_FULL, payload: P::NetTrace(&[]) });
+c15_back!(c15_back_verbose_empty, Shape { storage: false, htyp: H_ALL_BE, msin: M_LOG_INFO_V, ids: IDS_SHORT, payload: P::Verbose(&[]) });
+c15_back!(c15_back_verbose_bool, Shape { storage: false, htyp: H_EXT_LE, msin: M_LOG_INFO_V, ids: IDS_FULL, payload: P::Verbose(&[arg(AK::Bool)]) });
